@@ -965,6 +965,9 @@ class Env:
             ctx.assume(ops.truth_term(r))
         head_locals = dict(frame.locals)
         head_fields = dict(selfobj.fields) if isinstance(selfobj, SObj) else {}
+        # (for `head.<field>` in step / hint clauses: mutable sequences as they ARE at the loop head, not the object that
+        # the iteration goes on to mutate in place)
+        head_snap = {k: snapshot(v) for k, v in selfobj.fields.items()} if isinstance(selfobj, SObj) else {}
         head_terms = {k: (v.term if isinstance(v, (SBytes, SSeq)) else None) for k, v in frame.locals.items()}
         var0 = None
         if inv.decreases is not None:
@@ -1045,7 +1048,7 @@ class Env:
             for k, v in head_locals.items():
                 ns[k + "__head"] = v
             if isinstance(selfobj, SObj):
-                ns["head"] = _DictObj(head_fields)
+                ns["head"] = _DictObj(head_snap)
             for f in inv.hints:
                 r = eval_clause(it, f, ns)
                 ctx.oblige(f"{tag}.hint.{f.__name__}", ops.truth_term(r))
@@ -1059,7 +1062,7 @@ class Env:
             for k, v in head_locals.items():
                 ns[k + "__head"] = v
             if isinstance(selfobj, SObj):
-                ns["head"] = _DictObj(head_fields)
+                ns["head"] = _DictObj(head_snap)
             for f in inv.step:
                 r = eval_clause(it, f, ns)
                 ctx.oblige(f"{tag}.step.{f.__name__}", ops.truth_term(r), assume_after=False)
